@@ -168,6 +168,16 @@ func tgGen(seed uint64, tier string) {
 		if r.Intn(5) == 0 {
 			files = append(files, tgFile{name: "sub", dir: true})
 		}
+		// files the Go toolchain does not compile into the package: their functions do not exist for the generated tests
+		if r.Intn(4) == 0 {
+			files = append(files, tgFile{name: "_hidden.go", content: "package semantics\n\nfunc testHidden() bool {\n\treturn true\n}\n"})
+		}
+		if r.Intn(5) == 0 {
+			files = append(files, tgFile{name: ".dot.go", content: "package semantics\n\nfunc failing_testDot() bool {\n\treturn false\n}\n"})
+		}
+		if r.Intn(5) == 0 {
+			files = append(files, tgFile{name: "notes.txt", content: "func testInNotes() bool {\nnot Go at all\n"})
+		}
 		sort.Slice(files, func(a, b int) bool { return files[a].name < files[b].name })
 		proto.Reply("%s", encodeCase("go", files))
 		proto.Reply("%s", encodeCase("coq", files))
@@ -200,6 +210,9 @@ func specTests(files []tgFile) []string {
 	for _, f := range files {
 		if f.dir || strings.HasSuffix(f.name, "~") || strings.HasSuffix(f.name, ".gold.v") || strings.HasSuffix(f.name, "_test.go") {
 			continue
+		}
+		if !strings.HasSuffix(f.name, ".go") || strings.HasPrefix(f.name, "_") || strings.HasPrefix(f.name, ".") {
+			continue // not part of the package as the Go toolchain sees it
 		}
 		fset := token.NewFileSet()
 		af, err := parser.ParseFile(fset, f.name, f.content, 0)
